@@ -120,8 +120,9 @@ def child_modes_used(leaf, names):
     return used
 
 
-def modes_enum(L, build, names):
-    """C16: for every combination of child mode sets, leaves reachable with children restricted to those modes are allowed by the real exit_modes()"""
+def modes_enum(L, build, names, silent_defeat=()):
+    """C16: for every combination of child mode sets, leaves reachable with children restricted to those modes are allowed by the real exit_modes().
+    silent_defeat: children that may reach defeat although DEFEAT is not in their mode set (defeat raised inside an expression)"""
     t0 = time.time()
     leaves = getattr(L, 'last_leaves', None)
     if leaves is None:
@@ -145,7 +146,7 @@ def modes_enum(L, build, names):
         for l in leaves:
             if l.tag is not None: continue
             used = child_modes_used(l, names)
-            if any(m != 'continue' and m not in allowed[nm] for nm, s in used.items() for m in s):
+            if any(m != 'continue' and m not in allowed[nm] and not (m == ExitMode.DEFEAT and nm in silent_defeat) for nm, s in used.items() for m in s):
                 continue          # this leaf needs a child behaviour outside the combination
             n += 1
             # The property (C16) needs the two modes that decide whether code *after* the construct can be reached to be
